@@ -176,7 +176,7 @@ def _sig_of_state(s):
         return (str(last)[:24], "?")
     ev = last.get("ev", last)
     op = ev.get("op", ev.get("e", "?")) if isinstance(ev, dict) else str(ev)[:24]
-    mode = ev.get("mode", "") if isinstance(ev, dict) else ""
+    mode = (ev.get("mode", "") if isinstance(ev, dict) else "") or last.get("kind", "")
     out = last.get("out", "?")
     return (f"{op}{':' + str(mode) if mode else ''}", out if isinstance(out, str) else str(out)[:24])
 
@@ -248,8 +248,8 @@ class RawGraph:
         raw = self.raw[nid]
         i = raw.find("last")
         seg = raw[i:] if i >= 0 else raw
-        m, o = LazyGraph._OPOUT.search(seg), LazyGraph._OUT.search(seg)
-        return (m.group(1) if m else "?", o.group(1) if o else "?")
+        m, o, k = LazyGraph._OPOUT.search(seg), LazyGraph._OUT.search(seg), LazyGraph._KIND.search(seg)
+        return ((m.group(1) if m else "?") + (":" + k.group(1) if k and k.group(1) else ""), o.group(1) if o else "?")
 
 
 def choose_paths(g, paths, budget, rnd, depth=3):
@@ -470,6 +470,7 @@ class LazyGraph:
             self.tree_paths()
         return _edge_paths(self._parent, self.edges)
 
+    _KIND = re.compile(r'kind \|-> \\?"([a-z]*)\\?"')
     _OPOUT = re.compile(r'op \|-> \\?"([a-z_]+)\\?"')
     _OUT = re.compile(r'out \|-> \\?"([a-z_]+)\\?"')
 
@@ -478,8 +479,8 @@ class LazyGraph:
         raw = self.raw[nid]
         i = raw.find("last")
         seg = raw[i:] if i >= 0 else raw
-        m, o = self._OPOUT.search(seg), self._OUT.search(seg)
-        return (m.group(1) if m else "?", o.group(1) if o else "?")
+        m, o, k = self._OPOUT.search(seg), self._OUT.search(seg), self._KIND.search(seg)
+        return ((m.group(1) if m else "?") + (":" + k.group(1) if k and k.group(1) else ""), o.group(1) if o else "?")
 
     def sample_paths(self, paths, budget, rnd, depth=3):
         return _stratified(self, paths, budget, rnd, depth)
